@@ -23,7 +23,7 @@ at the data points only (poly_any_degree_below_penalty_reproduced; the exact Rat
 Scale equivariance (Props/C09c.lean: objective_scales, normal_system_scales, C09_scale_equivariant,
 C09_scaled_solution_is_unique_minimiser): real fits on (w, lambda) and (s w, s lambda), s = 2^-60 .. 2^40, must return the same
 coefficients (measured: bit for bit)."""
-import json, os, struct, sys
+import json, os, re, struct, sys
 from fractions import Fraction
 import psvlib
 
@@ -50,6 +50,17 @@ def describe(fline):
     ns = int(w[p]); sm = [dbl(z) for z in w[p + 1:p + 1 + ns]]; p += 1 + ns
     npo = int(w[p]); po = [int(z) for z in w[p + 1:p + 1 + npo]]
     return {"ndim": nd, "dims": dims, "coords": coords, "rows": rows[:400], "nrows": nr, "smoothing": sm, "penalty_order": po}
+
+def jload(ctx, line, what):
+    """one JSON line of harness/c09_streams.cpp (C prints non-finite doubles as nan / inf)"""
+    t = re.sub(r"(?<![\w\"])-?nan\b", "NaN", line)
+    t = re.sub(r"(?<![\w\"-])inf\b", "Infinity", t)
+    t = re.sub(r"(?<![\w\"])-inf\b", "-Infinity", t)
+    try: return json.loads(t)
+    except Exception as ex:
+        ctx.tie_ok = False
+        if len(ctx.broken) < 6: ctx.broken.append({"kind": "unreadable line from the %s stream" % what, "line": line[:400], "error": str(ex)})
+        return None
 
 def mixed_radix(ranges, idx):
     k = 0
@@ -130,7 +141,8 @@ def flatten_stream(ctx, counts, worst, nontriv, dist):
                            "true_flattened_position": mixed_radix(ranges, tuples[e_bad]) if e_bad is not None else None,
                            "returned_triplets": i.strip()[:1500], "case_line": c.strip()[:3000]}
                     counts["flatten_wrong"] += 1
-                    ctx.report("flatten_ndarray_to_sparse:wrong-cell", rep,
+                    if counts["flatten_wrong"] > 3: ctx.violations += 1     # counted; the first three carry the replays
+                    else: ctx.report("flatten_ndarray_to_sparse:wrong-cell", rep,
                                "flatten_ndarray_to_sparse puts the entry with indices %s of an array with ranges %s (%d cells%s) at (row, col) = %s instead of %s: the normal matrix of a fit with %d coefficients is assembled wrongly"
                                % (rep["indices"], ranges, prod, ", more than 2^32" if prod > 2 ** 32 else "", rep["obtained_row_col"], rep["expected_row_col"], nrow_want))
                 if model_cell is not None and got is not None:
@@ -161,8 +173,8 @@ def streams(ctx, counts, worst, nontriv, dist):
         lines = lines[:-1]
     dl = dist.setdefault("large_fits", {"shapes": [], "smoothing": [], "seconds": []})
     for l in lines:
-        try: d = json.loads(l)
-        except Exception: continue
+        d = jload(ctx, l, "large-fit")
+        if d is None: continue
         evals += 1; counts["large_fits"] += 1
         dl["shapes"].append("x".join(str(z) for z in d["ncoef_per_dim"]) + " order %d" % d["order"]); dl["smoothing"].append(d["smoothing"]); dl["seconds"].append(d.get("seconds"))
         rep = dict(d); rep["data"] = "z = prod_d (poly_const[d] + poly_slope[d]*x_d) on the full grid coords_0 x coords_1 (x ...), penalty order 2, one smoothing value for all dimensions"
@@ -172,8 +184,8 @@ def streams(ctx, counts, worst, nontriv, dist):
             continue
         sc = max(d["max_abs_coefficient"], d["max_abs_datum"])
         ratio = d["max_residual"] / (2.0 ** -24 * sc) if sc > 0 else 0.0
-        worst["large_repro_ratio"] = max(worst["large_repro_ratio"], ratio)
-        if ratio > K_REPRO:
+        if ratio == ratio: worst["large_repro_ratio"] = max(worst["large_repro_ratio"], ratio)
+        if not ratio <= K_REPRO:
             ctx.violation(rep, "a fit with %d coefficients (%s, order %d, smoothing %g) does not reproduce data that are a polynomial of degree below the penalty order: max residual at the data points %.3g (fit %.6g, datum %.6g at grid point %s; %d points off by more than 1e-4) > %d*2^-24*%.3g"
                           % (d["ncoef"], " x ".join(str(z) for z in d["ncoef_per_dim"]), d["order"], d["smoothing"], d["max_residual"], d["fit_at_worst"], d["datum_at_worst"], d["worst_point"], d["points_off_by_1e-4"], K_REPRO, sc))
         else:
@@ -192,8 +204,8 @@ def streams(ctx, counts, worst, nontriv, dist):
         lines = lines[:-1]
     ds = dist.setdefault("scale_equivariance", {"ndim": {}, "weight_style(0 1e-3..1e3, 1 all one, 2 times 1e-18, 3 times 1e12)": {}, "missing_cell_problems": 0, "smoothing_below_DBL_EPSILON_after_scaling": 0})
     for l in lines:
-        try: d = json.loads(l)
-        except Exception: continue
+        d = jload(ctx, l, "scale-equivariance")
+        if d is None: continue
         evals += 1; counts["scale_problems"] += 1
         ds["ndim"][str(d["ndim"])] = ds["ndim"].get(str(d["ndim"]), 0) + 1
         k2 = "weight_style(0 1e-3..1e3, 1 all one, 2 times 1e-18, 3 times 1e12)"; ds[k2][str(d["weight_style"])] = ds[k2].get(str(d["weight_style"]), 0) + 1
@@ -212,8 +224,8 @@ def streams(ctx, counts, worst, nontriv, dist):
             if r["coefficients_differing"] == 0:
                 counts["scale_bit_identical"] += 1; nontriv.add(l[:200] + str(r["log2_s"])); continue
             rel = r["max_abs_diff"] / cmax if cmax > 0 else float("inf")
-            worst["scale_rel_diff"] = max(worst["scale_rel_diff"], rel)
-            if rel > K_SCALE * 2.0 ** -24:
+            if rel == rel: worst["scale_rel_diff"] = max(worst["scale_rel_diff"], rel)
+            if not rel <= K_SCALE * 2.0 ** -24:
                 ctx.violation(rep, "fit(w, lambda) and fit(s*w, s*lambda) with s = 2^%d (smoothing %s -> %s) return different coefficients: %d differ, max difference %.3g (coefficient %d: %.9g vs %.9g; max |c| = %.3g) - the objective is merely multiplied by s, the minimiser is the same"
                               % (r["log2_s"], d["smoothing"], r["scaled_smoothing"], r["coefficients_differing"], r["max_abs_diff"], r["at"], r["base_there"], r["scaled_there"], cmax))
             else:
